@@ -485,6 +485,40 @@ bigquery_dialect.update_keywords_set_from_multiline_string(
     "reserved_keywords", bigquery_reserved_keywords
 )
 
+# Keywords which grammar elements of this dialect (including inherited
+# ones) refer to, but which are in neither keyword set.
+bigquery_dialect.sets("unreserved_keywords").update(
+    [
+        "ACTION",
+        "BEFORE",
+        "CATALOG",
+        "CONSTRUCTOR",
+        "DEFERRABLE",
+        "DEFERRED",
+        "EACH",
+        "FORMATS",
+        "FUNCTIONS",
+        "INITIALLY",
+        "INSTANCE",
+        "INSTEAD",
+        "METHOD",
+        "OLD",
+        "POLICIES",
+        "PROCEDURES",
+        "REFERENCING",
+        "ROUTINES",
+        "SEQUENCES",
+        "SPECIFIC",
+        "STAGES",
+        "STATEMENT",
+        "STATIC",
+        "STREAMS",
+        "TABLES",
+        "TASKS",
+        "VIEWS",
+    ]
+)
+
 # Add additional datetime units
 # https://cloud.google.com/bigquery/docs/reference/standard-sql/timestamp_functions#extract
 bigquery_dialect.sets("datetime_units").update(
